@@ -412,3 +412,48 @@ func TestMemBig(t *testing.T) { pbt.Run(t, specMemBig) }
 func TestReplay(t *testing.T) {
 	pbt.ReplayMain(t, pbt.Replayer(specMem), pbt.Replayer(specNet), pbt.Replayer(specMemBig), pbt.Replayer(specNetBig))
 }
+
+// TestRecycleCapSweep enumerates short sequences whose message sizes sit on
+// both sides of the buffer pool's 8 MiB recycle cap (and of 1 MiB), with a
+// zero-valued or smaller message after a huge one, in both directions.
+func TestRecycleCapSweep(t *testing.T) {
+	defer pbt.Flush()
+	big := func(n int64, size int, seed int) prog.Msg { return prog.Msg{N: n, TLen: size, TSeed: seed} }
+	const cap8 = 8 << 20
+	seqs := [][]prog.Msg{
+		{big(7, cap8+64, 1), big(0, cap8+32, 2)},         // two over-cap messages, the later with a zero number
+		{big(7, cap8+64, 1), {}, big(0, cap8-64, 3)},     // over cap, zero-valued, just under cap
+		{big(3, cap8-16, 4), big(0, cap8+16, 5), {N: 9}}, // straddling, then tiny
+		{big(5, 1<<20+8, 6), big(0, 1<<20-8, 7), {}},     // 1 MiB straddle then zero-valued
+	}
+	total := 0
+	var samples []any
+	for _, protocol := range prog.Protocols {
+		for _, kind := range []string{prog.Client, prog.Server, prog.Bidi} {
+			for si, seq := range seqs {
+				if pbt.Tier() == "quick" && (si+len(protocol)+len(kind))%2 == 1 {
+					continue // quick: half of the grid
+				}
+				c := Case{Cfg: prog.Config{Protocol: protocol, Codec: "proto", Kind: kind, CReadMax: 64 << 20, HReadMax: 64 << 20}, Transport: "mem", Pattern: "batch"}
+				switch kind {
+				case prog.Client:
+					c.Req, c.Res = seq, []prog.Msg{{N: 1}}
+				case prog.Server:
+					c.Req, c.Res = []prog.Msg{{N: 1}}, seq
+				default:
+					c.Req, c.Res = seq, seq
+				}
+				total++
+				if _, err := checkMem(t, c); err != nil {
+					path := pbt.SaveReplay(specMem, c, err)
+					fmt.Printf("VIOLATION property=C01 replay=%s\n", path)
+					t.Fatalf("C01/recycle-cap-sweep violated: %v", err)
+				}
+				if len(samples) < 2 {
+					samples = append(samples, c)
+				}
+			}
+		}
+	}
+	pbt.RecordBulk("C01", "recycle-cap-sweep", "enumerated sequences around the 8 MiB buffer-recycle cap and 1 MiB (over cap then over cap with a zero field; over cap, zero-valued, under cap; straddling then tiny) × 3 protocols × {client, server, bidi} over the in-memory transport (quick: half of the grid); same oracle as [mem]; every case is non-trivial", total, total, pbt.Thorough(), samples...)
+}
